@@ -8,5 +8,5 @@ CONSTANTS
   InitBal = 5
   MaxTime = 7
   MaxStep = 2
-INVARIANTS TypeOK C21_Once C21_Threshold C21_Distinct C21_PaidOnExec C21_ExecFlag
+INVARIANTS TypeOK C21_Once C21_Threshold C21_Distinct C21_PaidOnExec C21_ExecFlag C21_BlockClock
 CHECK_DEADLOCK FALSE
